@@ -13,7 +13,7 @@ PUTS = [('Port', 'put'), ('Port', 'run'), ('Port', '__init__'), ('REDPort', 'put
         ('OutMixIn', 'out.setter')]
 SCHED = [('Scheduler', '__init__'), ('Scheduler', 'send_packet'), ('Scheduler', 'add_packet_to_queue'),
          ('Scheduler', 'total_packets'), ('MultiQueueScheduler', '__init__'), ('MultiQueueScheduler', 'put'),
-         ('SP', 'run'), ('SP', '__init__'), ('WFQ', 'run'), ('WFQ', 'put'), ('WFQ', '__init__'), ('VC', 'run'),
+         ('SP', 'run'), ('SP', 'put'), ('SP', '__init__'), ('WFQ', 'run'), ('WFQ', 'serve'), ('DRR', 'serve'), ('WFQ', 'put'), ('WFQ', '__init__'), ('VC', 'run'),
          ('VC', 'put'), ('VC', '__init__'), ('DRR', 'run'), ('DRR', 'put'), ('DRR', '__init__'), ('RR', 'run'),
          ('RR', '__init__'), ('WRR', 'run'), ('WRR', '__init__')]
 STORE = [('Store', '_do_put@unbounded'), ('Store', '_do_get'), ('PriorityStore', '_do_put@unbounded'),
